@@ -94,7 +94,8 @@ fn gen_set(r: &mut Rng, fields: &[(String, Value)]) -> SetOp {
 				let t = ["", "abc", "1,5", "0.5.1", "--1", "1e", "0.3 "][r.usize_below(7)];
 				SetOp { name: name.clone(), text: t.into(), expect: None }
 			} else {
-				let (t, x) = [("0.25", 0.25), ("1", 1.0), ("0", 0.0), ("-2.5", -2.5), ("1e-3", 1e-3), ("3.0e2", 300.0), (".5", 0.5)][r.usize_below(7)];
+				// (the last two parse to a non-finite float: still "the parsed value")
+				let (t, x) = [("0.25", 0.25), ("1", 1.0), ("0", 0.0), ("-2.5", -2.5), ("1e-3", 1e-3), ("3.0e2", 300.0), (".5", 0.5), ("inf", f64::INFINITY), ("-inf", f64::NEG_INFINITY)][r.usize_below(9)];
 				let mut v = cur.clone();
 				cfgmut::set_float(&mut v, x);
 				SetOp { name: name.clone(), text: t.into(), expect: Some(v) }
